@@ -35,7 +35,7 @@ class Destructors:
     storage_key = gfa_line.__class__.STORAGE_KEY
     if storage_key == "name":
       name = gfa_line.name
-      if gfapy.is_placeholder(name):
+      if gfapy.is_placeholder(name) or not isinstance(name, str):
         name = id(gfa_line)
       collection.pop(name)
     elif storage_key == "external":
